@@ -10,6 +10,39 @@ use crate::cases::grad::*;
 use corgi::array::Array;
 use corgi::numbers::Float;
 
+/// the training-loop clause, through the `Model` struct: once the model has moved on to its
+/// next forward pass (and the caller dropped what it was handed), the previous batch is again
+/// the sole owner of its buffer - the previous output graph held by the model is gone
+pub fn model_release<S: Source>(s: &mut S) {
+    use corgi::layer::dense::Dense;
+    use corgi::model::Model;
+    use corgi::optimizer::gd::GradientDescent;
+    let init = crate::cases::c15::initializer(s.vals(2, Dom::D2));
+    let mut layer = Dense::new(1, 1, &init, None);
+    let gd = GradientDescent::new(0.5);
+    let costf: corgi::cost::CostFunction = Box::new(|o: &Array, t: &Array| o * t);
+    let x1 = mk(s, &[1, 1], Dom::D2);
+    let x2 = mk(s, &[1, 1], Dom::D2);
+    let t1 = mk(s, &[1, 1], Dom::D2);
+    {
+        let mut model = Model::new(vec![&mut layer], &gd, &costf);
+        let y1 = model.forward(x1.clone());
+        let loss = model.backward(t1.clone());
+        chk!(loss == y1.values()[0] * t1.values()[0], "[c15:model-loss] Model::backward did not return the sum of the cost array");
+        drop(y1);
+        let y2 = model.forward(x2.clone());
+        // iteration 1's graph is gone: its batch and target are solely owned again
+        let v: Vec<Float> = x1.into();
+        forget(v);
+        let v: Vec<Float> = t1.into();
+        forget(v);
+        forget((model, y2));
+    }
+    witness();
+    forget((layer, x2));
+    forget((init, costf));
+}
+
 /// build, optionally pass (once or twice), drop every derived handle, then unwrap every leaf
 pub fn release<P: Program, S: Source>(s: &mut S, p: &P, leaves: &[Leaf], passes: usize, keep_gradients: bool) {
     let b = build(s, leaves);
